@@ -255,6 +255,32 @@ def npSetRowFrom {α : Type} (m : List (List α)) (i lo : Int) (x : α) : Py (Li
 def npSetCol {α : Type} (m : List (List α)) (j : Int) (x : α) : Py (List (List α)) :=
   m.mapM (fun r => pySet r j x)
 
+/-- insertion into an ascending duplicate-free list -/
+def npInsertUnique (x : Int) : List Int → List Int
+  | [] => [x]
+  | y :: ys => if x < y then x :: y :: ys else if x = y then y :: ys else y :: npInsertUnique x ys
+
+/-- `np.unique(v)` of an integer array: ascending distinct values -/
+def npUnique (v : List Int) : List Int := v.foldr npInsertUnique []
+
+/-- insertion into an ascending list (duplicates kept) -/
+def npInsertSorted (x : Int) : List Int → List Int
+  | [] => [x]
+  | y :: ys => if x ≤ y then x :: y :: ys else y :: npInsertSorted x ys
+
+/-- `np.sort(v)` of an integer array -/
+def npSortInt (v : List Int) : List Int := v.foldr npInsertSorted []
+
+/-- `np.repeat(a, counts)` : `a[i]` repeated `counts[i]` times; `ValueError` for different lengths or a negative count -/
+def npRepeat {α : Type} (a : List α) (counts : List Int) : Py (List α) :=
+  if a.length ≠ counts.length then .error .value
+  else if counts.any (fun c => decide (c < 0)) then .error .value
+  else .ok ((a.zip counts).map (fun p => List.replicate p.2.toNat p.1)).flatten
+
+/-- `np.where(b)[0]` : the indices of the `True` entries -/
+def npWhere1 (b : List Bool) : List Int :=
+  ((List.range b.length).filter (fun i => b.getD i false)).map (fun (i : Nat) => (i : Int))
+
 /-- `np.floor(x)` as an integer -/
 def npFloor (x : Rat) : Int := x.floor
 
